@@ -17,6 +17,7 @@ import (
 	"strings"
 	"sync"
 	"testing"
+	"time"
 
 	"pgregory.net/rapid"
 )
@@ -275,7 +276,9 @@ func Run[C any](t *testing.T, id string, gen func(*rapid.T) C, decide func(C) Ve
 	})
 	rapid.Check(t, func(rt *rapid.T) {
 		c := gen(rt)
+		stop := watchdog(id, test, c)
 		v := safeDecide(decide, c)
+		stop()
 		rec.record(c, v)
 		if v.Discard || v.OK {
 			return
@@ -329,6 +332,30 @@ func RunFixed[C any](t *testing.T, id string, cases []C, decide func(C) Verdict)
 			t.Fatalf("stopping after %d violations", reported)
 		}
 	}
+}
+
+// watchdog saves the case and ends the process as INCONCLUSIVE when one case does not return within
+// VERIF_CASE_WATCHDOG seconds (default 600): a time budget hit is never a violation, but the culprit input is kept.
+func watchdog(id, test string, c any) (stop func()) {
+	secs := 600
+	if s := os.Getenv("VERIF_CASE_WATCHDOG"); s != "" {
+		if n, err := strconv.Atoi(s); err == nil && n > 0 {
+			secs = n
+		}
+	}
+	done := make(chan struct{})
+	go func() {
+		select {
+		case <-done:
+		case <-time.After(time.Duration(secs) * time.Second):
+			p := writeReplay(id, test, c, Verdict{Signature: "watchdog-no-return", Detail: fmt.Sprintf("case did not return within %d s", secs)})
+			np := strings.TrimSuffix(p, ".json") + ".suspect"
+			_ = os.Rename(p, np)
+			fmt.Printf("INCONCLUSIVE %s: one case did not return within %d s (possible non-termination or blow-up); case saved at %s\n", id, secs, np)
+			os.Exit(3)
+		}
+	}()
+	return func() { close(done) }
 }
 
 func safeDecide[C any](decide func(C) Verdict, c C) (v Verdict) {
